@@ -4,6 +4,7 @@ mod gen;
 mod judge;
 mod kinds;
 mod model;
+mod myc2;
 mod panichook;
 mod plan;
 mod rng;
